@@ -206,11 +206,13 @@ fn run_case(case: &Value) -> Value {
                           "pulled": 0, "reads": 0, "opened": 0, "eof": false, "capped": false});
         }
     };
+    let mut paths: Vec<String> = Vec::new();
     if let Some(files) = case["files"].as_array() {
         let _ = std::fs::create_dir_all(&tmp);
         tmp_used = true;
         for (i, f) in files.iter().enumerate() {
             let path = tmp.join(format!("f{}.json", i));
+            paths.push(path.to_string_lossy().to_string());
             let _ = std::fs::write(&path, unhex(f.as_str().unwrap_or("")));
             let key = format!("@FILE{}", i);
             for a in argv.iter_mut() {
@@ -368,6 +370,9 @@ fn run_case(case: &Value) -> Value {
         "pulled": s.pulled, "reads": s.reads, "opened": s.opened, "eof": s.eof, "capped": s.capped});
     if log {
         o["ev"] = Value::Array(s.ev.clone());
+    }
+    if !paths.is_empty() {
+        o["paths"] = json!(paths);
     }
     if let Some((written, capped)) = fifo_obs {
         o["pulled"] = json!(written);
